@@ -264,5 +264,75 @@ pub fn selftest() -> Vec<String> {
         }
         Err(e) => errs.push(format!("update selftest delete-where rejected: {}", e)),
     }
+    // template variable in predicate / graph position: an IRI is legal, a literal and a blank
+    // node are illegal and skipped for that solution
+    let mut ds4 = Dataset::default();
+    ds4.default.insert(("x:a".into(), "x:p".into(), "x:b".into()));
+    ds4.default.insert(("x:a".into(), "x:p".into(), "1".into()));
+    ds4.default.insert(("x:a".into(), "x:p".into(), "_:n1".into()));
+    let vp = Update::Modify {
+        delete: None,
+        insert: Some(vec![q(v("s"), v("o"), v("s")), QuadT { g: Some(v("o")), t: tp(v("s"), i("x:p"), v("s")) }]),
+        pattern: Group(vec![Elem::Triples(vec![tp(v("s"), i("x:p"), v("o"))])]),
+    };
+    match apply(&ds4, &vp, 1) {
+        Ok((d2, eff)) => {
+            let want_named: BTreeSet<_> = [("x:a".to_string(), "x:p".to_string(), "x:a".to_string())].into_iter().collect();
+            if eff != (Effect { inserted: 2, deleted: 0 })
+                || !d2.default.contains(&("x:a".to_string(), "x:b".to_string(), "x:a".to_string()))
+                || d2.default.len() != 4
+                || d2.named.len() != 1
+                || d2.named.get("x:b") != Some(&want_named)
+            {
+                errs.push(format!("update selftest variable predicate/graph: {:?} {:?}", d2, eff));
+            }
+        }
+        Err(e) => errs.push(format!("update selftest variable predicate/graph rejected: {}", e)),
+    }
+    // an unbound variable in a DELETE template is not a wildcard; unbound graph / subject skipped
+    let ub = Update::Modify {
+        delete: Some(vec![q(v("s"), i("x:p"), v("nb")), QuadT { g: Some(v("nb")), t: tp(v("s"), i("x:p"), v("o")) }]),
+        insert: Some(vec![q(v("nb"), i("x:p"), v("s")), q(v("s"), v("nb"), v("o"))]),
+        pattern: Group(vec![Elem::Triples(vec![tp(v("s"), i("x:p"), v("o"))])]),
+    };
+    match apply(&ds4, &ub, 1) {
+        Ok((d2, eff)) => {
+            if d2 != ds4 || eff != Effect::default() {
+                errs.push(format!("update selftest unbound template variables: {:?} {:?}", d2, eff));
+            }
+        }
+        Err(e) => errs.push(format!("update selftest unbound template variables rejected: {}", e)),
+    }
+    // blank node in INSERT DATA: one node per request, shared inside the request
+    let idb = Update::InsertData(vec![q(T::Bnode("b".into()), i("x:p"), i("x:c")), q(T::Bnode("b".into()), i("x:p"), i("x:a"))]);
+    match apply(&Dataset::default(), &idb, 1).and_then(|(d1, _)| apply(&d1, &idb, 2)) {
+        Ok((d2, eff)) => {
+            let subjects: BTreeSet<_> = d2.default.iter().map(|t| t.0.clone()).collect();
+            if eff.inserted != 2 || d2.default.len() != 4 || subjects.len() != 2 {
+                errs.push(format!("update selftest INSERT DATA blank node: {:?} {:?}", d2.default, eff));
+            }
+        }
+        Err(e) => errs.push(format!("update selftest INSERT DATA blank node rejected: {}", e)),
+    }
+    // multi-quad DELETE WHERE: the block is pattern (a join) and template (both quads go)
+    let mq = Update::DeleteWhere(vec![q(v("s"), i("x:p"), v("o")), q(v("o"), i("x:p"), v("z"))]);
+    match apply(&ds, &mq, 1) {
+        Ok((d2, eff)) => {
+            if eff.deleted != 2 || !d2.default.is_empty() {
+                errs.push(format!("update selftest multi-quad DELETE WHERE: {:?} {:?}", d2.default, eff));
+            }
+        }
+        Err(e) => errs.push(format!("update selftest multi-quad DELETE WHERE rejected: {}", e)),
+    }
+    // DELETE WHERE with a graph variable only touches named graphs
+    let gv = Update::DeleteWhere(vec![QuadT { g: Some(v("g")), t: tp(v("s"), i("x:p"), i("x:b")) }]);
+    match apply(&ds3, &gv, 1) {
+        Ok((d2, eff)) => {
+            if eff.deleted != 1 || d2.default.len() != 1 || !d2.named["x:g"].is_empty() {
+                errs.push(format!("update selftest graph-variable DELETE WHERE: {:?}", d2));
+            }
+        }
+        Err(e) => errs.push(format!("update selftest graph-variable DELETE WHERE rejected: {}", e)),
+    }
     errs
 }
